@@ -191,6 +191,24 @@ impl Model {
         }
     }
 
+    /// Is entity (k, h) referenced from any live site of the model?
+    pub fn referenced(&self, k: Kind, h: u32) -> bool {
+        let in_expr = |e: &Vec<MExpr>| {
+            e.iter().any(|x| match x {
+                MExpr::GlobalGet(g) => k == Kind::Global && *g == h,
+                MExpr::RefFunc(f) => k == Kind::Func && *f == h,
+                _ => false,
+            })
+        };
+        self.funcs.iter().filter(|f| f.live && f.import.is_none()).any(|f| f.sites.iter().any(|s| s.refs.contains(&(k, h))))
+            || self.exports.iter().any(|e| e.live && e.target == h && e.kind == k.name())
+            || (k == Kind::Func && self.start == Some(h))
+            || self.elems.iter().any(|(o, items, _)| in_expr(o) || items.iter().any(|i| in_expr(i)))
+            || self.globals.iter().any(|g| g.live && in_expr(&g.init))
+            || self.data.iter().any(|(m, o, _)| (k == Kind::Mem && *m == Some(h)) || in_expr(o))
+            || self.table_inits.iter().any(|t| t.as_ref().map(|e| in_expr(e)).unwrap_or(false))
+    }
+
     fn note_new_handle(&mut self, k: Kind, h: u32) {
         let dup = match k {
             Kind::Func => self.funcs.iter().any(|f| f.live && f.handle == h),
